@@ -37,9 +37,9 @@ MANIFEST = {
 }
 BUDGET = {"quick": {"shards": 16, "examples": 75, "wall": 200},
           "thorough": {"shards": 16, "examples": 4000, "wall": 1500}}
-VALUE_KINDS = ["int", "float", "text", "bool", "datetime", "nullable", "bytes"]
+VALUE_KINDS = ["int", "float", "text", "bool", "datetime", "nullable", "bytes", "json"]
 
-KINDS = ["bad_dtype", "nonstr_name", "dup_names", "null_in_required", "surrogate_text", "bytes_in_text", "text_in_int",
+KINDS = ["bad_dtype", "nonstr_name", "dup_names", "null_in_required", "surrogate_text", "bytes_in_text", "text_in_int", "nonjson_in_json",
          "missing_column", "extra_column", "diff_scheme", "diff_partition", "unknown_codec", "unknown_codec_col",
          "read_unknown_column", "filter_unknown_column",
          # beyond the kinds the property lists, same principle: a refused in-place update of the key/value metadata
@@ -61,7 +61,7 @@ def strategy_(draw, thorough):
     if kind == "null_in_required":
         # the base must be writable as non-nullable: no missing cells in object columns
         for c in fr0["cols"]:
-            if c["kind"] in ("text", "bytes", "nullable", "float", "datetime"):
+            if c["kind"] in ("text", "bytes", "nullable", "float", "datetime", "json"):
                 c["null"] = {"pat": "none", "mask": []}
     if fr0["n"] >= 2:
         opts["rgo"] = draw(st.sampled_from([None, 1, 2, max(1, fr0["n"] // 2)]))
@@ -149,6 +149,12 @@ def prepare_op(case, df1, path, other):
         c = _pick([c for c in vcols if c["kind"] == "int"], case["colpos"])
         col = df[c["name"]].astype(object).copy()
         col.iloc[row] = "not a number"
+        df[c["name"]] = col
+    elif kind == "nonjson_in_json":
+        # a column stored as JSON text (declared by the dataset's schema) and a value JSON cannot express
+        c = _pick([c for c in vcols if c["kind"] == "json"], case["colpos"])
+        col = df[c["name"]].astype(object).copy()
+        col.iloc[row] = [{"a": {1, 2}}, {"k": 1j}, {"b": b"\xff"}, object][n1 % 4]
         df[c["name"]] = col
     elif kind == "missing_column":
         if len(vcols) < 2:
